@@ -77,6 +77,11 @@ Theorem C04_chain_exact :
 Proof. exact chain_exact_reachable. Qed.
 Print Assumptions C04_chain_exact.
 
+(* The test run by the model driver on every state dumped from /repo decides the invariant. *)
+Theorem C04_inv_test : forall s, inv_b s = true <-> inv s.
+Proof. exact inv_b_spec. Qed.
+Print Assumptions C04_inv_test.
+
 (* ---------------------------------------------------------------- non-vacuity *)
 
 (* a labelling that accepts every augmentation (vertex n-1 first in the permutation, all orbits
@@ -124,6 +129,12 @@ Example C04_chain_nonvacuous :
   fst (ex_advance 200 6 (init 3 0 1)) /\
   length (filter (fun o => match o with Some _ => true | None => false end)
                  (fst (ex_advance 200 6 (init 3 0 1)))) = 4.
+Proof. split; vm_compute; reflexivity. Qed.
+
+Example C04_inv_test_nonvacuous :
+  inv_b (init 4 1 3) = true /\
+  inv_b (mkState 3 0 1 false (mkDense 2 1 [1%Z; 1%Z] [7%Z] [1%N] [5%N; 5%N])
+                 no_cache 0%N [2%N; 0%N] [1; 1]) = false.
 Proof. split; vm_compute; reflexivity. Qed.
 
 Example C04_load_save_nonvacuous :
